@@ -44,6 +44,17 @@ pub fn gen_stack_scenario(rng: &mut Rng, tier: Tier, stats: &mut GenStats, prop:
     );
     w.victims = victims;
     w.order = g.order(true);
+    // depth behaviours: the differential reference runs under the same behaviour, so directories
+    // at the maximum depth (never entered) and entries above the minimum (never fed) are handled
+    // by construction
+    if g.rng.chance(1, 5) {
+        let deepest = tree.iter().map(|n| depth_of(&n.path)).max().unwrap_or(1);
+        w.depth = match g.rng.below(3) {
+            0 => Depth::Max(g.rng.range(1, deepest + 1)),
+            1 => Depth::Min(g.rng.range(1, deepest)),
+            _ => Depth::MinMax(g.rng.range(1, deepest), g.rng.range(1, deepest + 1)),
+        };
+    }
     Scenario {
         prop: prop.into(),
         seed: 0,
